@@ -85,6 +85,16 @@ CHECKS = {
    note="Known finding C13/nonatomic-eval (F1): an evaluation is several critical sections, so execute(\"g() + (2 + 3)\") overlapped by a re-registration of + returns 0 (sequential orders: 6, 2); reproduced deterministically and printed as KNOWN-FINDING; the model's invariant is LinearizableOrF1. Schedules can be forced only at hook yield points; std Mutex/OnceCell are trusted.",
    technique="TLA+ concurrent Engine model (TLC: invariants, deadlock, liveness, linearizability) + forced schedules and stress runs in fresh processes + trace validation with silent linearization points",
    design="5/C13"),
+ "C08": dict(
+   text="Three parts, all decided with the specification. Dispatch: 12 binding configurations of a called name (context function, global, both, context variable with/without a global, nothing, built-in, built-in shadowed / replaced, a name turning from function into variable mid-program) in the Eval machine vs its denotation, replayed on the real evaluator with marker handlers. Histories: every sequence of up to 3 (thorough 4) calls over {register h1, register h2, evaluate} for 9 registry cells (new names and built-in overrides of every operator kind; the first call of the process may be a registration) plus interleavings of two cells, each run in a fresh process and validated by TLC against the atomic engine (last writer wins, nothing before the built-in tables are complete). Tables: 28 user operators at precedences 1,2,3,109..111,119..121,199..201,10^9-1,10^9 x {left,right} registered together; all ordered pairs of them and of 7 built-in representatives in 6 shapes through the Pratt machine vs the reference grammar under that table, replayed in the real parser; random programs using them validated by TLC; and the binding-power arithmetic (2p, 2p+-1) is proved by TLAPS to order operators exactly by (precedence, associativity) for ALL naturals and to fit i32 up to 10^9.",
+   note="Equal precedence with different associativity is Unspecified (don't-care). Trusted: TLC, TLAPS back ends, hooks H1/H2, marker handlers.",
+   technique="TLA+ Eval dispatch + atomic Engine histories (trace validation) + Pratt machine under an extended operator table (TLC, replay) + TLAPS proof of the binding-power lemmas",
+   design="5/C08"),
+ "C16": dict(
+   text="In the specification a result is a function of (program, context contents, registrations so far) by construction (Den, atomic engine), so conformance to it is the property: TLC checks EvalReadsOnly on the Engine model and machine = Den on programs that assign, fail midway and reuse names; every such behaviour is evaluated by the real engine three times on equal fresh contexts, interleaved with its neighbours' evaluations in one process - outcomes must be identical and equal the denotation, the registry snapshot (hook H5) equal before and after every parse and evaluation, and parsing the rendered program twice (an unrelated failing parse in between) must give equal trees. 2400 (thorough 16000) random programs are evaluated concurrently by 8 threads on their own contexts and every recorded outcome is validated by TLC against Den.",
+   note="Under concurrency the try_lock lock probes are not used (unsound with other threads inside their own critical sections). Trusted: TLC, hooks H4/H5, encodings.",
+   technique="TLA+ Den / atomic engine as the definition of determinism: replay with repetition and interleaving + registry snapshots + trace validation of concurrent evaluations",
+   design="5/C16"),
 }
 NOT_YET = "check not built yet (build in progress; see DESIGN.md section 11)"
 
